@@ -6,7 +6,7 @@
    translate      to_increment_commands = _TranslationState (registers per (channel, DepKey), active key per channel,
                   first-pass unrolling of iterations, the repetition "hackedy" branch, DepState.required_increment_from)
    run_vm         LinSpaceVM (program counter, label table, label counts, registers, history)
-   transform      ProgramEntry._transform_linspace_commands with the dict-collapse of _channel_transformations     *)
+   transform      ProgramEntry._transform_linspace_commands                                                        *)
 From Coq Require Import ZArith QArith Qround List Bool.
 Import ListNotations.
 Open Scope Z_scope.
@@ -499,17 +499,10 @@ Definition pipeline (fuel : positive) (channels : nat) (s : src) : res outcome :
 (* ---------------------------------------------------------------------------------------------------------------- *)
 (* ProgramEntry._transform_linspace_commands *)
 
-(* dict(zip(channels, trafos)): first occurrence fixes the position, last occurrence the value *)
-Definition oN_eqb (a b : option N) : bool :=
-  match a, b with Some x, Some y => N.eqb x y | None, None => true | _, _ => false end.
-
-Fixpoint dict_of {V} (l : list (option N * V)) (acc : list (option N * V)) : list (option N * V) :=
-  match l with
-  | [] => acc
-  | (k, v) :: r => dict_of r (aset oN_eqb k v acc)
-  end.
-
-Definition channel_trafos (hw : list (option N * (Q * Q))) : list (Q * Q) := map snd (dict_of hw []).
+(* the transformations of the defined channels in output order; unused outputs (channel None) do not take part
+   (before the repair of `unused-outputs-collapse`: list(dict(zip(channels, trafos)).values())) *)
+Definition channel_trafos (hw : list (option N * (Q * Q))) : list (Q * Q) :=
+  map snd (filter (fun x => match fst x with Some _ => true | None => false end) hw).
 
 Definition transform_cmd (tr : list (Q * Q)) (c : cmd) : res cmd :=
   match c with
